@@ -33,6 +33,30 @@ def check(prog, rep, tier):
     for ctx in CTXS:
         # the two buckets of a fingerprint are recomputed from the current capacity whenever they are needed
         candidates_stable(prog, rep, ctx, "C15.candidate")
+        # ------------------------------------------------------------ the bound itself is a whole number
+        # "no bucket holds more than bucket_size entries" is decided through len(bucket) < bucket_size: that bounds the length by
+        # bucket_size only if bucket_size is an integer (len < 2.5 admits a third entry; the padding arithmetic of export then fails too)
+        init = prog.method(ctx, "__init__")
+        okint, nint = True, 0
+        for p in paths(prog, ctx, init, inline="deep"):
+            if p.exit[0] != "return":
+                continue
+            for e in p.events:
+                if e.kind == "setfield" and e.base == SELF and e.name in ("_bucket_size", "_cuckoo_capacity"):
+                    v = strip_epochs(e.value)
+                    nint += 1
+                    integral = (v[0] == "c" and isinstance(v[1], int)) or (v[0] == "call" and v[1] in (("g", "int"), ("g", "len"), ("ext", "math", "ceil"), ("ext", "math", "floor"))) or \
+                        (v[0] == "unp" and [c_ for c_ in v[1] if c_.isalpha()][v[2]] in "bBhHiIlLqQnN") or \
+                        (v[0] in ("bin", "nary") and v[1] in ("//", "*", "+", "-") and all(
+                            (x[0] == "c" and isinstance(x[1], int)) or x[0] == "unp" or (x[0] == "call" and x[1] in (("g", "int"), ("g", "len"))) or x[0] in ("bin", "nary", "f")
+                            for x in (v[2] if v[0] == "nary" else v[2:])))
+                    if not integral and okint:
+                        rep.bad("C15.bounded-append", f"{ctx}.__init__", f"{e.name} = {nshow(v)}",
+                                f"the constructor stores {nshow(v)} as {e.name.lstrip('_')} without making it a whole number: a fractional value passes the Number check, and "
+                                "len(bucket) < bucket_size then admits one entry too many", e.where())
+                        okint = False
+        if okint and nint:
+            rep.ok("C15.bounded-append", f"{ctx}.__init__: bucket_size and capacity are stored as integers ({nint} assignments)")
         # ------------------------------------------------------------ bounded appends
         okb = True
         nsites = 0
